@@ -13,7 +13,14 @@ LEAN_TARGETS = ["CLModel.Props.C17"]
 M = "CLModel.Props.C17"
 THEOREMS = [
     (M, "C17.linecol_cursor", "linecol(p) never raises for p >= 0 and equals the text-editor cursor: (1,1) at offset 0, newline -> next line column 1, other character -> next column (all texts, all offsets)"),
-    (M, "C17.linecol_spec", "line = 1 + number of newlines before p; column = 1 + distance from the line start (<= p, at text start or after a newline, no newline up to p)"),
+    (M, "C17.linecol_spec", "for EVERY text and EVERY offset 0 <= o <= len (o = len included, with or without final newline): line = 1 + number of '\\n' among the first o characters, column = 1 + o - (index just after the last '\\n' before o) [= text.rfind('\\n', 0, o) + 1, written as a function nlEndBefore], and that index is the line start"),
+    (M, "C17.linecol_spec_at_end", "o = len(text): line = 1 + number of newlines of the text, column = 1 + length of what follows the last newline"),
+    (M, "C17.linecol_no_final_newline", "a text not ending in '\\n': the end of the text is on the LAST line (number of lines = 1 + newlines) in a column >= 2 (a splitlines(True)-style table has no entry for it)"),
+    (M, "C17.linecol_after_final_newline", "a text ending in '\\n': the end of the text is column 1 of the line after it"),
+    (M, "C17.linecol_only_newline_counts", "only U+000A counts: a text without '\\n' is one line for linecol, whatever FF / VT / CR / U+0085 / U+2028 / U+2029 / FS..RS it contains (the regex compiled inside linecol is regenerated and proved to be the single character)"),
+    (M, "C17.linecol_in_text", "0 <= o <= len: 1 <= line <= number of lines, 1 <= column <= length of that line + 1, and (line, column) denotes offset o again (the character at the reported place is the character at o)"),
+    (M, "C17.linecol_lineStart_spec", "for every offset (also beyond the text): line = 1 + newlines before p, column = p - b + 1 for the line start b (IsLineStart)"),
+    (M, "C17.linecol_cache_transparent", "Parser.Context caches the table of line ends on first use: any sequence of linecol calls on ONE context (whichever call builds the table) returns what a fresh computation returns for each position"),
     (M, "C17.linecol_lineStart_unique", "that line start is unique, so linecol_spec determines the pair"),
     (M, "C17.linecol_zero_succ", "step rule: offset 0 is (1,1); after a newline next line column 1; else one column further"),
     (M, "C17.linecol_inverse", "the offset is recovered from (line, column): start of that line (one past the (line-1)-th newline) + column - 1"),
@@ -35,36 +42,67 @@ THEOREMS = [
     (M, "C17.check_pos_in_range_entity", "EntityPos(n) with span[0]+n <= len(text): start of entity <= reported <= end of file"),
     (M, "C17.check_pos_in_range_value", "int offset n into the value with val_span[0]+n <= len(text): same range"),
     (M, "C17.check_pos_in_range_fluent", "Fluent int offset n with span[0]+n <= len(text): same range"),
+    (M, "C17.base_check_positions", "Checker.check (base.py): every EntityPos it yields is the offset of a U+FFFD inside l10nEnt.all"),
+    (M, "C17.properties_check_positions", "PropertiesChecker.check, all entity pairs, unconditional: every position is an EntityPos at a U+FFFD of all, or int 0, or (escape) the offset of a backslash in raw_val, or (printf) the offset of a % in the unescaped val"),
+    (M, "C17.properties_check_pos_bound", "... so EntityPos < len(all) and int <= len(raw_val): the offsets stay inside what compare/lint add them to"),
+    (M, "C17.properties_val_not_longer", "PropertiesEntity.val is never longer than raw_val, and equal to it when raw_val has no backslash (offsets into val are offsets into raw_val)"),
+    (M, "C17.dtd_check_positions", "DTDChecker.check, whatever expat answers: every position is an EntityPos at a U+FFFD, the pair (0,0) of the warnings, the pair errorPos computes from an expat (line, column), int 0 (number/CSS) or an Android content offset"),
+    (M, "C17.dtd_expat_mapping", "how the checker maps an expat position back: lnr = line - 1; line 2 -> (1, col - 6); line 2+j -> (1+j, col) with expat's 0-based column unchanged; line 1 -> (0, col - 16)"),
+    (M, "C17.dtd_expat_offset_position", "the expat contract composed with errorPos and value_position: if expat reports the character at value offset q as (2 + newlines before q, column in that line [+6 on the <elem> line]), the code reports exactly the file position of val_span[0]+q on the first value line, and the right line with a column one too small on later lines"),
+    (M, "C17.dtd_pair_in_range_partial", "under the expat contract (pair (lp >= 1, cp) denotes a place of the value) DTDEntity.value_position((lp, cp)) lies between the start of the entity and the end of the file"),
+    (M, "C17.fluent_check_positions", "FluentChecker: after the sort every position is 0 or (span start of a recorded AST node) - entry.span.start"),
+    (M, "C17.fluent_check_pos_in_range", "under the fluent.syntax contract entry.start <= node.start <= entry.end every FluentChecker position resolves inside [start of entity, end of file]"),
+    (M, "C17.check_pos_target", "ini/inc/po/properties, every text, every entry of its parse, every checker result: the reported pair is the cursor of a U+FFFD inside the entry / of an offset inside the value span (value start, a backslash, or a % when raw_val has no backslash) / or the known pre-comment shift"),
+    (M, "C17.target_in_text", "a Target is inside the text (1 <= line <= number of lines, 1 <= column <= line length + 1, denotes an offset of the entry) unless it is the known pre-comment shift"),
+    (M, "C17.check_pos_in_range", "check_pos_in_range for compare and lint WITHOUT the abstract hypothesis: start of entity <= reported <= end of file for every checker result of an entry without pre-comment and for every int (value) position"),
+    (M, "C17.lint_positions_end_to_end", "L10nLinter.lint_file (composed model), all texts of ini/inc/po/properties: every result belongs to an entry of the parse and sits at the junk start (message: text, start pair, END pair), at the start of THIS occurrence (duplicate / changed ID), or at a Target of a checker finding"),
+    (M, "C17.lint_positions_in_text", "... hence 1 <= line <= number of lines, 1 <= column <= line length + 1, pair denotes an offset <= len -- except exactly the known finding shape (U+FFFD warning of an entry with pre-comment)"),
+    (M, "C17.compare_positions_end_to_end", "ContentComparer.compare + toJSON (composed model), any observers/filters, with/without merge: every error/warning detail is 'k occurs n times', 'Parser error in en-US', Junk.error_message() with the pairs of START and END of a junk of the localized file, or '<msg> at line l, column c for <key>' with (l, c) a Target of a localized entry"),
+    (M, "C17.junk_text_positions", "both pairs of a junk message are inside the text, denote span[0] and span[1], start <= end"),
+    (M, "C17.lint_duplicate_own_position", "every occurrence of a duplicated key gets its 'Duplicate string with ID' error at the cursor of ITS OWN span[0]; occurrences at different offsets are reported at different pairs"),
+    (M, "C17.position_negative_offsets_agree", "every negative offset means the end of the span: position(-n) = position(-1) (Junk.error_message's position(-1) -> position(-2) is an equivalent mutant)"),
+    (M, "C17.android_positions_are_zero_offset", "Android objects carry no spans: position(off) = value_position(off) = (0, off) -- not text positions, outside the property"),
 ]
 PARTIAL = [
-    "dtd_tuple_position_partial: only pairs on the first line of the value are reported at the right character; for later lines and line 0 the code is off (theorems dtd_tuple_later_line_off_by_one / dtd_tuple_line_zero state what it does); which pair expat reports for an XML error is external",
-    "check_pos_in_range_*: conditional on the checker's offset staying inside what it indexes; the checkers are not modelled, the claim is checked on the real checkers by the harness (and fails for EntityPos with a pre-comment and DTD line-0 pairs, see findings)",
+    "dtd_tuple_position_partial / dtd_pair_in_range_partial: only pairs on the first line of the value are reported at the right character; for later lines the pair is in range but one column short, line 0 falls before the entity (theorems dtd_tuple_later_line_off_by_one / dtd_tuple_line_zero state what the code does); which pair expat reports for an XML error is external: the range theorem carries the contract 'the pair denotes a place of the value', dtd_check_positions + dtd_expat_mapping say how the checker derives the pair",
+    "check_pos_in_range (composed, no abstract hypothesis) covers ini/inc/po (base Checker) and properties (PropertiesChecker); it needs 'no attached pre-comment' for EntityPos results, without which it is false for the code (finding C17-entitypos-counts-from-precomment, kernel-checked witness through the whole lint pipeline); DTD and Fluent keep an external contract (expat pair inside the value, AST spans inside the entry)",
+    "check_pos_in_range_entity/_value/_fluent (round 1) stay as the generic conditional lemmas the composed theorems instantiate",
     "fluent_value_position_default needs the value to start inside the entry (contract of fluent.syntax, monitored)",
+    "compare_positions_end_to_end / lint_positions_end_to_end are safety statements about a run that returned (that it returns is C05's compare_never_raises_partial / lint_never_raises); the '%' claim of a printf position holds when raw_val has no backslash (offsets into val and raw_val coincide)",
 ]
 TRUSTED = [
     "hand-written model CLModel/Parser/Position.lean of linecol / position / value_position / error_message / DTD and Fluent overrides / check-position dispatch (tied by the linecol, c17.* correspondences)",
     "bisect.bisect (C library) modelled by its contract on sorted lists (number of elements <= x); the list of line ends is proved strictly increasing",
     "the regex compiled inside linecol is regenerated from /repo by the translator (parser_base_Parser_Context_linecol_nl) and proved to be the single character newline",
     "parser models CLModel/Parser/{Base,Formats,Fluent}.lean (C01) supply the entries of the file-level correspondence",
+    "composed pipeline model CLModel/Compare/Pipeline.lean (C05: parse + checkers + compare loop + observers + lint) and the checker models Checks/{Base,Properties,Dtd,Fluent}.lean (C05-C08): the end-to-end theorems are about them; tied to the real compare/lint by the c05.compare / c05.lint correspondence, which this check also runs on its own position-centred pairs",
+    "CLModel/Parser/PositionCache.lean: the Context object with its cached _lines (tied by c17.lcseq: one shared real context per offset sequence)",
 ]
 ASSUMPTIONS = [
     "texts are newline-normalised (no carriage returns), as the property states; other Unicode line breaks are ordinary characters for linecol",
-    "Android entities carry no spans (anchors exclude android.py): outside C17",
+    "Android entities carry no spans (anchors exclude android.py): every position is (0, offset) (theorem android_positions_are_zero_offset, stream android): outside the claims of C17",
     "offsets judged by the oracle lie in [0, len(text)]; a (-1,-1) span of an unmatched group (value_position of `#define k`) is reported informationally",
 ]
-LEVEL_TEXT = ("Lean 4 theorems over an executable transliteration of Parser.Context.linecol and the position methods: for ALL texts and ALL "
-              "offsets the reported pair is the text-editor cursor position (1-based, newline count + distance from the line start), the "
-              "offset is recovered from the pair, the map is strictly monotone; entry/value/junk/Fluent/DTD positions reduce to it. "
-              "Model tied to the Python by exhaustive {letter,newline} texts x every offset, by all entries of generated files of six "
-              "formats, and by the positions the real compare/lint runs attach to checker results; an independent oracle (count/rfind/split) "
-              "checks the property on the implementation")
-LEVEL_NOTE = ("trusted: Lean kernel, hand-written model validated by correspondence, bisect by contract; DTD pairs are right only on the first "
-              "value line (proved, with the defects for other lines as theorems); range of checker positions proved under 'offset inside what "
-              "it indexes' and checked on the real checkers, where three root causes violate it (findings)")
+LEVEL_TEXT = ("Lean 4 theorems over an executable transliteration of Parser.Context.linecol (with its cached line table) and the position "
+              "methods: for ALL texts and ALL offsets 0..len the reported pair is 1 + newlines before / 1 + distance from the last newline "
+              "(explicit formula, only U+000A counts), lies inside the text and denotes the offset again; entry/value/junk/Fluent/DTD "
+              "positions reduce to it. Composed with the checker models (base, properties unconditionally; DTD and Fluent under the "
+              "external contract of expat / fluent.syntax) and with the composed compare/lint pipeline model of C05: every lint result "
+              "and every error/warning detail of a comparison of ini/inc/po/properties files is explained (junk: start and end pair; "
+              "duplicate/changed ID: start of that occurrence; checker finding: U+FFFD / value offset / the known pre-comment shift). "
+              "Models tied to the Python by exhaustive {letter,newline} texts x every offset, shared-context offset sequences, all entries "
+              "of generated files of six formats, the positions real compare/lint runs attach to checker results, and the whole "
+              "report of the real compare/lint on position-centred pairs; an independent oracle (count/rfind/split) checks the property "
+              "on the implementation")
+LEVEL_NOTE = ("trusted: Lean kernel, hand-written models validated by correspondence, bisect by contract; DTD pairs are right only on the "
+              "first value line (proved, with the defects for other lines as theorems; which pair expat reports is external); the composed "
+              "range theorem needs 'no attached pre-comment' for EntityPos results, where the code violates the claim (finding, "
+              "kernel-checked witness); dtd/ftl/android pipelines are decided by the execution oracle")
 TECHNIQUE = "Lean 4 proof (linecol = cursor, inverse, monotone) + exhaustive/differential correspondence + independent oracle on the implementation"
 
 FORMATS = ["properties", "dtd", "ini", "inc", "po", "ftl"]
-CHECK_FORMATS = ["properties", "dtd", "ftl", "ini", "inc"]
+CHECK_FORMATS = ["properties", "dtd", "ftl", "ini", "inc", "po"]
+PIPE_FORMATS = ["properties", "ini", "inc", "po"]      # whole pipeline modelled (C05): c05.compare / c05.lint
 LETTERS = ["a", "é", "\x0b", "\x85", " ", "\U0001F600", " ", "\t", "\x0c", "\x1c", "=", "#"]
 
 
@@ -162,6 +200,34 @@ def part_linecol(ctx, out):
             out.disagreements.append({"op": "linecol", "text": text, "pos": p, "impl": r, "model": mo})
     if len(out.samples) < 2:
         out.samples.append({"op": "linecol", "text": "a\nbc\n", "pos": 3, "result": I.impl_linecol("a\nbc\n", [3], True)[0]})
+    # the cached line table: whole offset sequences on ONE context object (the first call builds the table),
+    # model = the Context object with its `_lines` attribute (c17.lcseq); oracle: every in-text offset is judged
+    seqs = []
+    for idx, (text, offs) in enumerate(cases):
+        if idx % 4 == 1 or idx >= exhaustive:
+            o2 = list(offs)
+            rng.shuffle(o2)
+            seqs.append((text, o2[:12]))
+    # texts that end without a newline / with other line-break characters, last offset first
+    for t in ["a", "a\nb", "\n\nb", "a\x0cb", "a\u2028b\nc", "a\x85\nb", "\x1c\x1d\x1e", "a\x0bb\n", "ab\n\ncd"]:
+        seqs.append((t, [len(t)] + list(range(len(t)))))
+        seqs.append((t, list(range(len(t) + 1))))
+    slines = ["c17.lcseq %s %s" % (C.enc(t), " ".join(str(o) for o in offs)) for t, offs in seqs]
+    smodel = C.run_driver_parallel(slines) if ctx.model_ok else [None] * len(slines)
+    for (text, offs), mo in zip(seqs, smodel):
+        out.evaluations += 1
+        out.count("linecol.sequences")
+        r = I.impl_linecol_seq(text, offs)
+        bad = None
+        for p, one in zip(offs, r.split(" ")):
+            if 0 <= p <= len(text):
+                bad = bad or judge(text, p, parse_lc(one))
+        if len(offs) > 1 and "\n" in text:
+            out.nontrivial.add(("lcseq", text, tuple(offs)))
+        if bad:
+            out.violations.append({"what": "linecol on one shared context: " + bad, "input": {"op": "lcseq", "text": text, "offsets": offs}})
+        elif mo is not None and mo != r:
+            out.disagreements.append({"op": "c17.lcseq", "text": text, "offsets": offs, "impl": r, "model": mo})
 
 
 # ------------------------------------------------------------------ part 2: entries over explicit spans
@@ -185,6 +251,8 @@ def part_spans(ctx, out):
                     if off == 0:
                         lines.append("c17.junk %s %d %d" % (C.enc(text), s, e))
                         impl.append(("c17.junk", text, {"s": s, "e": e}, (s, e), r["jmsg"], False))
+                        lines.append("c17.junkmsg %s %d %d" % (C.enc(text), s, e))
+                        impl.append(("c17.junkmsg", text, {"s": s, "e": e}, (s, e), I.impl_junk_message(text, s, e), False))
         r = I.impl_entity(text, 0, L, None, None, 0)
         lines.append("c17.vpos %s N N 0" % C.enc(text))
         impl.append(("c17.vpos:none", text, {}, None, r["vpos"], False))
@@ -239,6 +307,13 @@ def judge_span_case(op, text, args, tgt, r):
         exp = "%d,%d,%d,%d" % (ref_linecol(text, tgt[0]) + ref_linecol(text, tgt[1]))
         if r != exp:
             bad = "Junk.error_message reports %s, expected %s" % (r, exp)
+    elif op == "c17.junkmsg":
+        # the whole message: the junk text, then the pair of its START, then the pair of its END
+        exp = C.enc(junk_message(text, list(tgt)))
+        if r != exp:
+            bad = "Junk.error_message() is %s, expected %s" % (r, exp)
+        if "\n" in text[:tgt[1]]:
+            tag = "nontrivial"
     elif op == "c17.vpos:none":
         if r != "X":
             bad = "value_position without a value span returned %s instead of failing its assertion" % r
@@ -277,6 +352,8 @@ def rerun_span_case(i):
         r = I.impl_entity(text, 0, len(text), None, None, 0)["vpos"]
     elif op == "c17.junk":
         r = I.impl_entity(text, i["s"], i["e"], i["s"], i["e"], 0)["jmsg"]
+    elif op == "c17.junkmsg":
+        r = I.impl_junk_message(text, i["s"], i["e"])
     else:
         r = I.impl_entity(text, i["s"], i["e"], i["s"], i["e"], i["off"])[op.split(":")[1]]
     tgt = tuple(i["tgt"]) if isinstance(i.get("tgt"), list) else i.get("tgt")
@@ -295,6 +372,12 @@ def part_files(ctx, out):
         for _ in range(ctx.n(300, 5000)):
             n = rng.randrange(2, 7)
             texts.append("\n".join("".join(rng.choice(alpha) for _ in range(rng.randrange(0, 5))) for _ in range(n)))
+        texts.extend(DIRECTED.get(fmt, []))
+        for _ in range(ctx.n(60, 600)):
+            # directed material with random lines before it, so that positions are behind newlines
+            if DIRECTED.get(fmt):
+                pre = "\n".join("".join(rng.choice(alpha) for _ in range(rng.randrange(0, 3))) for _ in range(rng.randrange(0, 3)))
+                texts.append(pre + ("\n" if pre else "") + rng.choice(DIRECTED[fmt]) + rng.choice(["", "\n", rng.choice(alpha)]))
         texts = [t for t in texts if "\r" not in t]
         out.count("files.%s.cases" % fmt, len(texts))
         res = pool.pmap("impl.pos", "impl_file_positions", [[fmt, t] for t in texts], timeout=3.0)
@@ -334,6 +417,8 @@ def part_files(ctx, out):
                         break
                 if rec.get("msgval") is False and not bad:
                     bad = "Junk.error_message does not quote the junk text of %r" % (rec["span"],)
+                if rec.get("raw_none") is False and not bad:
+                    bad = "raw_val of the comment at %r (no value span) is not None" % (rec["span"],)
                 if bad:
                     break
             if nontriv:
@@ -347,12 +432,66 @@ def part_files(ctx, out):
                 out.samples.append({"op": "file", "fmt": fmt, "text": t, "positions": v["canon"]})
 
 
+    part_android(ctx, out)
+
+
+DIRECTED = {
+    # parameter entities (DTDParser.getNext falls back to rePE when the base parser says Junk)
+    "dtd": ['<!ENTITY % brandDTD SYSTEM "chrome://branding/locale/brand.dtd">\n%brandDTD;\n',
+            '<!ENTITY % a SYSTEM \'x\'>%a;', '<!ENTITY k "v">\n<!ENTITY % b SYSTEM "u">\n  %b; <!-- c -->\n<!ENTITY l "w">',
+            '<!ENTITY % a SYSTEM "x">\n%b', '\ufeff<!ENTITY % a SYSTEM "x"> %a;\n<!ENTITY k "v">',
+            '<!-- c -->\n<!ENTITY % a SYSTEM "x">%a;\n'],
+    # reKey matches but createEntity raises BadEntity (getNext falls through to Junk)
+    "po": ['msgid "a"\n', 'msgid "a"\nmsgstr\n', 'msgid "a"\n\nmsgid "b"\nmsgstr "c"\n', '# c\nmsgid "a"\nx\n',
+           'msgctxt "c"\nmsgid "a"\nmsgstr "b"\n\nmsgid\n', 'msgid "a"\nmsgstr "b"\n\nmsgid "a"\nmsgstr "c"\n'],
+    "inc": ["#define k\n", "#define k  \n#define l v\n", "\n#define k v\n"],
+}
+
+ANDROID = [
+    '<?xml version="1.0" encoding="utf-8"?>\n<resources>\n  <!-- c -->\n  <string name="a">v</string>\n  <string name="b">w\nx</string>\n</resources>\n',
+    '<resources><string name="a">v</string></resources>', '<resources><string', 'junk', '', '<resources>\n<string name="a">%</string>\n<x/>\n</resources>',
+]
+
+
+def part_android(ctx, out):
+    """Android objects have no spans: every position is (0, offset).  Not judged as text positions (android.py is not
+    an anchor of C17); tied to the model (Lint.position / valuePosition in `node` mode) and counted."""
+    from impl import pos as I
+    lines = ["c17.node %d" % o for o in (-1, 0, 3)]
+    model = C.run_driver_parallel(lines) if ctx.model_ok else [None] * 3
+    exp = dict(zip((-1, 0, 3), model))
+    for text in ANDROID:
+        out.evaluations += 1
+        try:
+            recs = I.impl_android_positions(text)
+        except Exception as e:
+            out.count("android.parse_raised_%s" % type(e).__name__)
+            continue
+        for rec in recs:
+            for off, p, v in rec["pos"]:
+                out.count("android.positions_not_text_positions")
+                mo = exp.get(off)
+                if mo is not None and v != "none" and "%s %s" % (p, v) != mo:
+                    out.disagreements.append({"op": "c17.node", "cls": rec["cls"], "off": off, "impl": "%s %s" % (p, v), "model": mo})
+                if p != "0,%d" % off:
+                    # the documented behaviour changed: report it through the correspondence channel
+                    out.disagreements.append({"op": "android-position", "cls": rec["cls"], "off": off, "impl": p, "model": "0,%d" % off})
+            if rec["msg"] is not None:
+                out.count("android.junk_message_%s" % rec["msg"])
+    for fmt in FORMATS:
+        out.evaluations += 1
+        r = I.impl_noctx(fmt)
+        if r != [0, 0]:
+            out.violations.append({"what": "%s: walk() without a context yields %r entries" % (fmt, r), "input": {"op": "noctx", "fmt": fmt}})
+
+
 # ------------------------------------------------------------------ part 4: positions attached to check / lint messages
 VAL = {
     "properties": ["a", " ", "%S", "%1$S", "%2$S", "%d", "%%", "#1", ";", "\\u0041", "\\\n  ", "�", "é", "\\n", "%", "x", "\\"],
     "dtd": ["a", " ", "\n", "&foo;", "&bar;", "&amp;", "<", "<b>", "</b>", "%", "10em", "width: ", "1", ";", "�", "é", "&", "'", "\n\n"],
     "ini": ["a", " ", "�", "%S", "é", "x=y"],
     "inc": ["a", " ", "�", "é", "\t"],
+    "po": ["a", " ", "�", "é", "\\n", "\\t", "%s", "x y"],
     "ftl": ["a", " ", "{ $x }", "{ -t0 }", "{ m1 }", "\n    ", "\n    .attr = v", "\n    .attr = w", "\n    .other = z",
             "{ $n ->\n        [one] a\n       *[other] b\n    }", "�", "é", "{ \"x\" }", "{", "}", "{ -t0.attr }", "{ m1.attr }"],
 }
@@ -361,6 +500,7 @@ COMMENT = {
     "dtd": lambda rng: "<!-- " + rng.choice(["note", "x\ny", "LOCALIZATION NOTE"]) + " -->\n",
     "ini": lambda rng: "; " + rng.choice(["note", "x\n; y"]) + "\n",
     "inc": lambda rng: "# " + rng.choice(["note", "x\n# y"]) + "\n",
+    "po": lambda rng: "# " + rng.choice(["note", "x\n# y", "�"]) + "\n",
     "ftl": lambda rng: "# " + rng.choice(["note", "x\n# y"]) + "\n",
 }
 
@@ -384,6 +524,11 @@ def entity(fmt, key, val):
     if fmt == "inc":
         v = val.replace("\n", " ")
         return "#define %s%s\n" % (key, (" " + v) if v else "")
+    if fmt == "po":
+        v = val.replace("\n", " ").replace('"', "")
+        if len(v) % 4 == 3:
+            return 'msgctxt "c"\nmsgid "%s"\nmsgstr ""\n"%s"\n\n' % (key, v)      # string list over two lines
+        return 'msgid "%s"\nmsgstr "%s"\n\n' % (key, v)
     return "%s = %s\n" % (key, val)
 
 
@@ -400,7 +545,7 @@ def gen_file(rng, fmt, keys, trouble):
             parts.append(COMMENT[fmt](rng))
         parts.append(entity(fmt, k, gen_value(rng, fmt, 1 if fmt in ("ftl", "ini") else 0)))
         if trouble and rng.random() < 0.15:
-            parts.append(rng.choice(["??\n", "junk line\n", "<!ENTITY\n", "= x\n", "[[\n"]))
+            parts.append(rng.choice(["??\n", "junk line\n", "<!ENTITY\n", "= x\n", "[[\n", "??\n\n??\n", "msgid\n"]))
     text = "".join(parts)
     if rng.random() < 0.3:
         text = text.rstrip("\n")
@@ -410,13 +555,23 @@ def gen_file(rng, fmt, keys, trouble):
 def gen_pair(rng, fmt):
     n = rng.randrange(1, 4)
     if fmt == "ftl":
-        keys = ["-t0", "m1", "m2"][:n]
+        keys = ["-t0", "m1", "mkey"][:n]        # "…key": counted as an access key, not as a string (keyRE)
     else:
-        keys = ["k%d" % i for i in range(n)]
-    ref = gen_file(rng, fmt, keys, False)
+        keys = ["k0", "k1", "key2"][:n]
+    rk = list(keys)
     lk = list(keys)
     if rng.random() < 0.2:
         rng.shuffle(lk)
+    # duplicated keys on either side (Parser.findDuplicates), a key only in one file (missing / obsolete)
+    if rng.random() < 0.15:
+        lk.insert(rng.randrange(len(lk) + 1), rng.choice(keys))
+    if rng.random() < 0.1:
+        rk.insert(rng.randrange(len(rk) + 1), rng.choice(keys))
+    if rng.random() < 0.15:
+        lk.append("m9" if fmt == "ftl" else "k9")
+    if rng.random() < 0.15 and len(lk) > 1:
+        lk.pop(rng.randrange(len(lk)))
+    ref = gen_file(rng, fmt, rk, False)
     l10n = gen_file(rng, fmt, lk, True)
     return ref, l10n
 
@@ -491,8 +646,23 @@ def lint_target(cls, ent, chk, text):
         return ent["span"][0] + a
     if tag == "O" and 0 <= ent["vs"][0] <= ent["vs"][1] and a >= 0:
         raw = text[ent["vs"][0]:ent["vs"][1]]
+        if chk.get("cat") == "escape" and a <= len(raw):
+            return ent["vs"][0] + a         # PropertiesChecker's "unknown escape": the offset indexes raw_val itself
         if a == 0 or ("\\" not in raw and "&" not in raw and a <= len(raw)):
             return ent["vs"][0] + a
+    return None
+
+
+def claimed_char(cls, ent, chk, text):
+    """the character a lint position claims to point at, where the checker's message names one:
+    U+FFFD for the encoding warning, the backslash of an unknown escape, the '%' of a printf error"""
+    tag, a, _ = chk["pos"]
+    if tag == "E" and chk.get("cat") == "encodings":
+        return "\ufffd"
+    if tag == "O" and chk.get("cat") == "escape":
+        return "\\"
+    if tag == "O" and chk.get("cat") == "printf" and chk["msg"] in ("Found single %", "Mixed ordered and non-ordered args"):
+        return "%"
     return None
 
 
@@ -523,8 +693,12 @@ def _part_checks(ctx, out, base):
         rng = ctx.rng("c17", "checks", fmt)
         heavy = fmt in ("properties", "dtd", "ftl")
         pairs = [gen_pair(rng, fmt) for _ in range(ctx.n(500 if heavy else 150, 6000 if heavy else 1500))]
-        res = pool.pmap("impl.pos", "impl_compare", [[fmt, r, l, base] for r, l in pairs], timeout=6.0, batch=16)
-        for (ref, l10n), r in zip(pairs, res):
+        # a third of the runs with a merge file (skips are collected), a quarter with observers that answer
+        # "ignore" / "warning" (the missing / report branches); the reported positions must not depend on either
+        opts = [(rng.random() < 0.33, rng.choice(["error", "error", "error", "mixed", "ignore", "warning"])) for _ in pairs]
+        res = pool.pmap("impl.pos", "impl_compare", [[fmt, r, l, base, m, rv] for (r, l), (m, rv) in zip(pairs, opts)],
+                        timeout=6.0, batch=16)
+        for (ref, l10n), (mrg, rv), r in zip(pairs, opts, res):
             out.evaluations += 1
             if "r" not in r:
                 out.count("compare.%s.harness_exc_%s" % (fmt, r.get("exc")))
@@ -559,6 +733,17 @@ def _part_checks(ctx, out, base):
             if junk_events != expected:
                 out.violations.append({"what": "%s compare: unparsed-content messages %r, expected %r" % (fmt, junk_events, expected),
                                        "input": {"op": "compare", "fmt": fmt, "ref": ref, "l10n": l10n}})
+            # duplicated keys: one message per key, "<key> occurs <n> times" (warning for the reference, error for l10n)
+            dup_events = sorted([c, d] for c, d in v["events"] if re.search(r" occurs \d+ times\Z", d))
+            dup_expected = sorted([["warning", "%s occurs %d times" % (k, n)] for k, n in v["ref_dups"]] +
+                                  [["error", "%s occurs %d times" % (k, n)] for k, n in v["l10n_dups"]])
+            if dup_expected:
+                out.nontrivial.add(("dup-message", fmt, l10n, ref))
+                out.count("compare.%s.with_duplicates" % fmt)
+            if dup_events != dup_expected:
+                out.violations.append({"what": "%s compare: duplicate messages %r, expected %r" % (fmt, dup_events, dup_expected),
+                                       "input": {"op": "compare", "fmt": fmt, "ref": ref, "l10n": l10n}})
+            out.count("compare.%s.merge_%s.rv_%s" % (fmt, int(mrg), rv))
         # lint
         files = []
         for _ in range(ctx.n(300 if heavy else 100, 4000 if heavy else 1000)):
@@ -629,15 +814,41 @@ def _part_checks(ctx, out, base):
                 out.violations.append({"what": "%s lint: %s" % (fmt, bad), "input": {"op": "lint", "fmt": fmt, "text": text, "ref": ref}})
             elif not aligned:
                 out.disagreements.append({"op": "lint-alignment", "fmt": fmt, "text": text, "ref": ref, "results": results[:6]})
+    # files the comparer / linter cannot read or has no parser for (no position to report, or the fixed (1, 1))
+    from impl import pos as I
+    for kind in ("noparser", "ref-unreadable", "l10n-unreadable"):
+        out.evaluations += 1
+        r = I.impl_compare_broken(kind, base)
+        exp = [] if kind == "noparser" else [["error", True]]
+        if r["exc"] or r["events"] != exp:
+            out.violations.append({"what": "compare of an unreadable / unknown file (%s): raised %r, events %r, expected %r" % (
+                kind, r["exc"], r["events"], exp), "input": {"op": "broken", "kind": kind}})
+    out.evaluations += 1
+    r = I.impl_lint_broken(base)
+    if r.get("results") != [[1, 1, "error"]]:
+        out.violations.append({"what": "lint of an unreadable file: %r, expected one error at line 1, column 1" % (r,),
+                               "input": {"op": "broken", "kind": "lint-unreadable"}})
     # judge + correspondence of every resolved check position
     lines = [resolve_line(cls, text, ent, chk) for fmt, text, ent, chk, rep, where, cls, extra in todo]
     model = C.run_driver_parallel(lines) if ctx.model_ok else [None] * len(lines)
     for (fmt, text, ent, chk, rep, where, cls, extra), mo in zip(todo, model):
         out.evaluations += 1
         out.count("checks.%s.%s.%s" % (where, fmt, chk["pos"][0]))
-        bad = judge_check(text, ent, rep, one_based=(where == "lint"),
-                          target=lint_target(cls, ent, chk, text) if where == "lint" else None)
+        tgt = lint_target(cls, ent, chk, text) if where == "lint" else None
+        bad = judge_check(text, ent, rep, one_based=(where == "lint"), target=tgt)
+        if not bad and tgt is not None and 0 <= tgt < len(text):
+            ch = claimed_char(cls, ent, chk, text)
+            if ch is not None and text[tgt] != ch:
+                bad = "reported %r identifies offset %d, where the character is %r, not the %r the message is about" % (
+                    tuple(rep), tgt, text[tgt], ch)
+            elif ch is not None:
+                out.count("checks.lint.claimed_character_verified")
         canon = "%d,%d" % (rep[0], rep[1])
+        if where == "compare" and chk.get("cat") == "printf" and chk["pos"][0] == "O" and chk["pos"][1] > 0 \
+                and "\\" in text[ent["vs"][0]:ent["vs"][0] + chk["pos"][1]]:
+            # printf offsets index the unescaped value but are added to the start of the raw value: in range, not at the '%'
+            # (theorem check_pos_target claims the '%' only for raw values without backslash; kernel-checked witness)
+            out.count("checks.compare.printf_offset_behind_escapes_observed")
         if chk["pos"][0] == "T" or chk["pos"][1] > 0:
             out.nontrivial.add((where, fmt, text, chk["msg"], canon))
         if bad:
@@ -655,6 +866,43 @@ def _part_checks(ctx, out, base):
             out.samples.append({"op": where, "fmt": fmt, "text": text, "message": chk["msg"], "pos": chk["pos"], "reported": rep})
 
 
+def part_pipeline(ctx, out):
+    """the composed pipeline model of C05 (`Pipe.compareTexts` / `Pipe.lintText`: parse + checker + compare loop +
+    observers + lint), about which the round-4 end-to-end theorems speak, against the real compare + toJSON and
+    lint_file on C17's own position-centred pairs (multi-line values, pre-comments, duplicated keys, junk)"""
+    cases = []
+    for fmt in PIPE_FORMATS:
+        rng = ctx.rng("c17", "pipeline", fmt)
+        for _ in range(ctx.n(110, 900)):
+            ref, l10n = gen_pair(rng, fmt)
+            cases.append((fmt, ref, l10n, rng.random() < 0.3))
+    lat = lambda t: t.encode("utf-8").decode("latin-1")
+    res = pool.pmap("impl.pipeline", "impl_pipeline", [[f, lat(r), lat(l), m] for f, r, l, m in cases], timeout=10.0, batch=8)
+    lines, idx = [], []
+    for i, ((fmt, ref, l10n, m), r0) in enumerate(zip(cases, res)):
+        r = r0.get("r", r0)
+        if "ref_text" not in r:
+            out.count("pipeline.%s.harness_exc_%s" % (fmt, r0.get("exc")))
+            continue
+        lines.append("c05.compare %s %s %s %d" % (fmt, C.enc(r["ref_text"]), C.enc(r["l10n_text"]), 1 if m else 0))
+        idx.append((i, "compare"))
+        lines.append("c05.lint %s %s %s" % (fmt, C.enc(r["ref_text"]), C.enc(r["l10n_text"])))
+        idx.append((i, "lint"))
+        lines.append("c05.lint %s - %s" % (fmt, C.enc(r["l10n_text"])))
+        idx.append((i, "lint_noref"))
+    model = C.run_driver_parallel(lines) if ctx.model_ok else [None] * len(lines)
+    for (i, k), mo in zip(idx, model):
+        fmt, ref, l10n, m = cases[i]
+        r = res[i].get("r", res[i])
+        out.evaluations += 1
+        out.count("pipeline.%s.%s" % (fmt, k))
+        im = r[k]
+        if mo is not None and im != mo:
+            out.disagreements.append({"op": "c05." + k, "fmt": fmt, "merge": m, "ref": ref, "l10n": l10n, "impl": im[:600], "model": mo[:600]})
+        elif " at line " in im or "from line " in im or (k != "compare" and im != "ok "):
+            out.nontrivial.add(("pipeline", fmt, k, im))
+
+
 def classify(v):
     return v.get("finding")
 
@@ -668,11 +916,16 @@ def run(ctx):
                 "position(mid), value_position(...) and Junk.error_message; checks: generated ref/l10n pairs and lint files of "
                 "properties/dtd/ftl/ini/inc through the real ContentComparer.compare and L10nLinter.lint_file. non-trivial = a judged position "
                 "behind at least one newline and not in column 1 (linecol), an entity/junk position with line>=2 and column>=2 (files), a check "
-                "position that is a pair or a positive offset; distinct inputs/outcomes counted")
-    part_linecol(ctx, out)
-    part_spans(ctx, out)
-    part_files(ctx, out)
-    part_checks(ctx, out)
+                "position that is a pair or a positive offset; distinct inputs/outcomes counted. Round 4: whole offset sequences on ONE "
+                "cached context (c17.lcseq), the whole Junk.error_message text over all spans, DTD parameter entities / PO BadEntity / "
+                "valueless #define as directed files, Android entries (positions (0, offset), counted, not judged), compare pairs with "
+                "duplicated / missing / obsolete keys, a third with a merge file and varying observer answers, gettext files, unreadable "
+                "files, and the composed C05 pipeline model (c05.compare / c05.lint) on these pairs")
+    import time
+    for part in (part_linecol, part_spans, part_files, part_checks, part_pipeline):
+        t0 = time.time()
+        part(ctx, out)
+        out.count("seconds." + part.__name__, int(round(time.time() - t0)))
     # one violation of every kind first (the replay file keeps the first 20)
     kinds, first, rest = set(), [], []
     for v in out.violations:
@@ -693,6 +946,19 @@ def replay(payload):
         if op == "linecol":
             r = I.impl_linecol(i["text"], [i["pos"]], True)[0]
             o = judge(i["text"], i["pos"], parse_lc(r))
+        elif op == "lcseq":
+            r = I.impl_linecol_seq(i["text"], i["offsets"])
+            for p_, one in zip(i["offsets"], r.split(" ")):
+                if 0 <= p_ <= len(i["text"]):
+                    o = o or judge(i["text"], p_, parse_lc(one))
+        elif op == "noctx":
+            o = None if I.impl_noctx(i["fmt"]) == [0, 0] else "walk() without a context yields entries"
+        elif op == "broken":
+            if i["kind"] == "lint-unreadable":
+                o = None if I.impl_lint_broken().get("results") == [[1, 1, "error"]] else "lint of an unreadable file is not one error at (1, 1)"
+            else:
+                rr = I.impl_compare_broken(i["kind"])
+                o = None if (not rr["exc"] and rr["events"] == ([] if i["kind"] == "noparser" else [["error", True]])) else "unexpected %r" % (rr,)
         elif op == "file":
             r = pool.pmap("impl.pos", "impl_file_positions", [[i["fmt"], i["text"]]], timeout=5.0)[0]
             if "r" in r:
